@@ -250,4 +250,40 @@ PROPS = {
                        "satisfies agreement: any two delivered blocks at any two honest nodes are on one chain; no two different blocks at one height; one certified block per round. "
                        "The cons engine ties the node model to the real Consensus node (0 divergences over seeded protocol runs with equivocation, replays, view changes, sync).",
     },
+    "C06": {
+        "lean_modules": ['HotstuffModel.Properties.C06'],
+        "engines": [{'name': 'netsim'}],
+        "level": "proof",
+        "level_text": "PARTIAL: machine-checked enabling lemmas for each progress step + whole-system simulation of the liveness claim on the real code (the 'eventually' itself is not a theorem).",
+        "trusted_base": TB_COMMON + [
+            "ideal signatures and collision-free digests (DESIGN 3.4): ed25519 and SHA-512 are modelled, not verified",
+            "netsim engine: real nodes (real node.rs wiring) on the in-memory simnet transport under tokio's paused virtual clock; harness proxies model links (latency >= 5 ms, cuts hang connections, no loss on healthy links)",
+        ],
+        "assumptions": ['the temporal claim is NOT proved (no fairness / real-time model of timers and TCP back-off); it is explored by simulation', 'virtual time: timers fire in deadline order; link latencies after stabilisation are 1-20 ms against a 1000 ms round timeout'],
+        "explanation": 'Proved for every state/input: the timer always yields a timeout for the current round; a quorum of verified timeouts forms and broadcasts a TC and advances the round; a leader entering its round via a TC requests exactly one proposal; voting is enabled for a safe block of the current round; TCs/QCs synchronise views. Explored: netsim runs 4-7 REAL nodes with every kind of <= f crash set, random crash instants and random pre-stabilisation delays/cuts; after stabilisation every live node must commit in each window of (4(f+1)+6) timeouts; commit logs must agree.',
+    },
+    "C07": {
+        "lean_modules": ['HotstuffModel.Properties.C07'],
+        "engines": [{'name': 'netsim'}, {'name': 'cons'}],
+        "level": "proof",
+        "level_text": 'PARTIAL: machine-checked protocol lemmas + simulation of catch-up on the real code.',
+        "trusted_base": TB_COMMON + [
+            "ideal signatures and collision-free digests (DESIGN 3.4): ed25519 and SHA-512 are modelled, not verified",
+            "netsim engine: real nodes (real node.rs wiring) on the in-memory simnet transport under tokio's paused virtual clock; harness proxies model links (latency >= 5 ms, cuts hang connections, no loss on healthy links)",
+        ],
+        "assumptions": ["convergence 'once reconnected' is a liveness statement: explored by simulation, not proved"],
+        "explanation": "Proved for every state/input: a sync request from a member is answered with exactly the block stored under the digest (and stored blocks have the digest they are filed under); a block with a missing parent is parked, the parent requested from its author once, retried by broadcast; parked blocks resume only after the parent is stored; blocks enter the store only after their parents (oldest first). Explored: netsim isolates one real node for a random interval while the others commit (with/without view changes, slow first sync target) and requires its commit log to reach and equal the others'; the cons engine compares the single-node park/request/resume behaviour with the model.",
+    },
+    "C13": {
+        "lean_modules": ['HotstuffModel.Properties.C13'],
+        "engines": [{'name': 'netsim'}],
+        "level": "proof",
+        "level_text": 'PARTIAL: machine-checked pipeline lemmas + whole-system simulation on the real code.',
+        "trusted_base": TB_COMMON + [
+            "ideal signatures and collision-free digests (DESIGN 3.4): ed25519 and SHA-512 are modelled, not verified",
+            "netsim engine: real nodes (real node.rs wiring) on the in-memory simnet transport under tokio's paused virtual clock; harness proxies model links (latency >= 5 ms, cuts hang connections, no loss on healthy links)",
+        ],
+        "assumptions": ['the end-to-end claim is a liveness statement over the whole system: explored by simulation, not proved', 'per-hand-over facts come from C11 (batching), C12 (quorum ACK), C08 (availability), C16 (store)'],
+        "explanation": "Proved for every state/input: a digest from the mempool stays in the proposer's buffer until it goes into the node's next proposal or a Cleanup names it; a block with missing batches asks for exactly the missing ones from its author, is parked, and resumes exactly when all of them are stored. Explored: netsim submits client transactions to several real nodes (one node misses another's batch broadcasts) and checks on the real stores that every transaction is in a batch referenced by a block committed at EVERY node, readable under its digest.",
+    },
 }
